@@ -16,6 +16,7 @@ class Ctx:
         self.state = self.prog.cls('State')
         self.eff = Effects(self.prog, self.state)
         self._paths: dict = {}
+        self.touched: dict = {}
         from .match import Matcher
         self.m = Matcher(self.prog)
 
@@ -26,14 +27,64 @@ class Ctx:
         """method of State"""
         if name not in self.state.methods:
             raise AnalysisError(f'anchor State.{name} vanished')
+        self.touched[self.state.methods[name].qualname] = self.state.methods[name]
         return self.state.methods[name]
 
     def paths(self, fi: FuncInfo, **kw) -> list[Path]:
+        self.touched[fi.qualname] = fi
         k = (fi.qualname, tuple(sorted((a, repr(b)) for a, b in kw.items() if a != 'inline_attr')), id(kw.get('inline_attr')))
         if k not in self._paths:
             modstar = self.eff.mod if fi.cls is self.state else {}
             self._paths[k] = Walker(fi.node, modstar=modstar, **kw).run()
         return self._paths[k]
+
+    def definite_assignment(self, chk) -> None:
+        """<PID>.defined: one obligation per function the property's rules analysed (see defined.py)"""
+        from .defined import undefined_reads
+        import json
+        import os
+        names = {}
+        # the functions the property is anchored in (frozen by name from the anchors of properties.jsonl) are in scope too
+        try:
+            with open(os.path.join(os.path.dirname(os.path.abspath(__file__)), 'anchored_functions.json'), encoding='utf-8') as fp:
+                anchored = json.load(fp).get(chk.pid, [])
+        except OSError:
+            anchored = []
+        gone = []
+        for ref in anchored:
+            mod, _, qn = ref.partition(':')
+            mi = self.prog.modules.get(mod)
+            fi = None
+            if mi is not None:
+                if '.' in qn:
+                    cn, _, fn = qn.partition('.')
+                    ci = mi.classes.get(cn)
+                    fi = ci.methods.get(fn) if ci is not None else None
+                else:
+                    fi = mi.functions.get(qn)
+            if fi is None:
+                gone.append(ref)
+            else:
+                self.touched.setdefault(fi.qualname, fi)
+        if gone:
+            chk.note('anchored functions no longer present under that name (not in the scope of <PID>.defined): ' + ', '.join(gone))
+        for qn, fi in sorted(self.touched.items()):
+            mi = self.prog.modules[fi.module]
+            if fi.module not in names:
+                g = set(mi.imports) | set(mi.functions) | set(mi.classes) | {k for k in mi.assigns if '.' not in k}
+                for st in mi.tree.body:
+                    for n in ast.walk(st) if not isinstance(st, (ast.FunctionDef, ast.ClassDef)) else ():
+                        if isinstance(n, ast.Name) and isinstance(n.ctx, ast.Store):
+                            g.add(n.id)
+                        elif isinstance(n, (ast.Import, ast.ImportFrom)):
+                            g |= {(al.asname or al.name).split('.')[0] for al in n.names}
+                names[fi.module] = g
+            enclosing = ()
+            bad = undefined_reads(fi.node, names[fi.module], enclosing)
+            chk.ob(f'{chk.pid}.defined', qn, not bad, loc(fi, bad[0][1]) if bad else loc(fi, fi.node),
+                   'every name the function reads is bound on the way: nothing is read that no statement defines, and a local bound '
+                   'in a try body is also bound by each handler that falls through to its use (no NameError part-way)',
+                   got='; '.join(f'{n}: {why}' for n, _, why in bad[:4]) if bad else '')
 
     def loc(self, fi: FuncInfo, node: ast.AST | None = None) -> str:
         return loc(fi, node if node is not None else fi.node)
